@@ -202,6 +202,10 @@ func checkC02(env *fedEnv, res *Result, ops []*fedOp) {
 				res.Violate("C02/unknown-variable", "sub-request declares $%s which the client operation does not declare: %s", vd.Variable, wr.Text)
 				continue
 			}
+			if vd.Variable == "id" && isNodeLookup(sop) && countVarUses(sop.SelectionSet, "id") == 1 {
+				// the gateway's own $id of a node lookup; the client's $id is not used in this step
+				continue
+			}
 			want, wok := effectiveVar(cdef, fo.op.Vars)
 			got, gok := effectiveVar(vd, wr.Vars)
 			if wok != gok || (wok && gql.Diff("$"+vd.Variable, want, got) != "") {
@@ -483,3 +487,63 @@ func hasRepeatedEntity(v interface{}) bool {
 }
 
 var _ = sort.Strings
+
+// isNodeLookup: the sub-request is the gateway's node(id: $id) lookup.
+func isNodeLookup(op *ast.OperationDefinition) bool {
+	if len(op.SelectionSet) != 1 {
+		return false
+	}
+	f, ok := op.SelectionSet[0].(*ast.Field)
+	if !ok || f.Name != "node" || f.Alias != "node" {
+		return false
+	}
+	a := f.Arguments.ForName("id")
+	return a != nil && a.Value != nil && a.Value.Kind == ast.Variable && a.Value.Raw == "id"
+}
+
+// countVarUses counts the uses of $name in arguments and directives below sel.
+func countVarUses(sel ast.SelectionSet, name string) int {
+	n := 0
+	var val func(v *ast.Value)
+	val = func(v *ast.Value) {
+		if v == nil {
+			return
+		}
+		if v.Kind == ast.Variable && v.Raw == name {
+			n++
+		}
+		for _, c := range v.Children {
+			val(c.Value)
+		}
+	}
+	dirs := func(ds ast.DirectiveList) {
+		for _, d := range ds {
+			for _, a := range d.Arguments {
+				val(a.Value)
+			}
+		}
+	}
+	var walk func(ss ast.SelectionSet)
+	walk = func(ss ast.SelectionSet) {
+		for _, s := range ss {
+			switch x := s.(type) {
+			case *ast.Field:
+				for _, a := range x.Arguments {
+					val(a.Value)
+				}
+				dirs(x.Directives)
+				walk(x.SelectionSet)
+			case *ast.InlineFragment:
+				dirs(x.Directives)
+				walk(x.SelectionSet)
+			case *ast.FragmentSpread:
+				dirs(x.Directives)
+				if x.Definition != nil {
+					walk(x.Definition.SelectionSet)
+				}
+			}
+		}
+	}
+	walk(sel)
+	return n
+}
